@@ -354,7 +354,7 @@ def shards(tier, seed):
     items = [('graphs', tier, k, n) for k in range(n)]
     fl = L.STAT_LABELS
     items += [('bodies', f) for f in fl]
-    items += [('paths',), ('errors',), ('resave',)]
+    items += [('paths',), ('errors',), ('resave',), ('siblings', 0), ('siblings', 1), ('siblings', 2)]
     return items
 
 
@@ -380,10 +380,44 @@ def run_shard(item):
     elif item[0] == 'errors':
         for ec in ERRORS:
             run_error(ec, res)
+    elif item[0] == 'siblings':
+        run_siblings(item[1], res)
+        res.sample({'siblings': 'main requires a then b (and a requires c); every pair of game-loop placements in a and b'})
     elif item[0] == 'resave':
         resave_history(res)
         res.sample({'history': 'build; re-save pk.lua and main.lua; build again in the same directory (x3)'})
     return res
+
+
+def run_siblings(part, res):
+    """Graphs x bodies: one requirer loads several packages whose bodies carry game-loop functions in different places."""
+    combos = [(pa, pb) for pa in PLACEMENTS for pb in PLACEMENTS]
+    for idx, (pa, pb) in enumerate(combos):
+        if idx % 3 != part:
+            continue
+        for ugl_a in (False, True):
+            res.evaluations += 1
+            d = fresh_dir()
+            try:
+                sa, ea, _ = body_case('assign', pa, True, ugl_a)
+                sb_, eb, _ = body_case('local', pb, idx % 2 == 0, False)
+                sc, ec, _ = body_case('callstat', 'middle', True, False)
+                sa2 = b'require("c")\n' + sa
+                ea2 = toks(b'require("c")\n') + ea
+                main = b'require("a"%s)\nrequire("b")\nz=1\n' % (b', {use_game_loop=true}' if ugl_a else b'')
+                for n, src in (('a', sa2), ('b', sb_), ('c', sc), ('main', main)):
+                    open(os.path.join(d, n + '.lua'), 'wb').write(src)
+                case = {'kind': 'siblings', 'part': part, 'pa': pa, 'pb': pb, 'ugl_a': ugl_a}
+                res.nontriv(('siblings', pa, pb, ugl_a))
+                rcode, err, out = build(d, [])
+                tail = 'siblings|a=%s|b=%s' % (pa, pb)
+                if err is not None or rcode != 0:
+                    res.violation('C14|build-fails|%s' % tail, 'build with sibling packages failed: %r' % (err or rcode,), case)
+                    continue
+                if check_out(out, main, {b'a': ea2, b'b': eb, b'c': ec}, res, case, tail):
+                    res.outcome(('siblings', pa, pb))
+            finally:
+                shutil.rmtree(d, ignore_errors=True)
 
 
 def resave_history(res):
@@ -412,7 +446,9 @@ def resave_history(res):
 def replay(case):
     res = ShardResult()
     k = case['kind']
-    if k == 'resave':
+    if k == 'siblings':
+        run_siblings(case['part'], res)
+    elif k == 'resave':
         resave_history(res)
     elif k == 'graph':
         run_graph([tuple(e) for e in case['edges']], case['nodes'], res)
